@@ -26,7 +26,7 @@ def native_plan(tier):
 
 
 def run(pid, tier):
-    out = Outcome(pid, tier, 'proof')
+    out = Outcome(pid, tier, 'other')
     t0 = time.time()
     native = {}
     native_failures = []
